@@ -39,7 +39,9 @@ class Scenario:
             import pickle
 
             # objects that went through pickle (multiprocessing, joblib, a cache): equal values, new identities
-            self.mix, self.membrane = pickle.loads(pickle.dumps((self.mix, self.membrane)))
+            import copy
+
+            self.mix, self.membrane = pickle.loads(pickle.dumps((self.mix, self.membrane))) if rng.random() < 0.5 else copy.deepcopy((self.mix, self.membrane))
         self.pv = Pervaporation(self.membrane, self.mix)
         self.t0 = gen.pick_temperature(rng, 283.0, 390.0)
         self.x0 = gen.pooled_composition(rng) if (basis in (None, "weight") and rng.random() < 0.15) else gen.gen_composition(rng, self.mix, basis=basis, edge=0.02)
